@@ -38,6 +38,16 @@ pub fn build_pass_1(
 
         let (current_end_offset, current_offset, items) =
             pass_1_internal(&segment, offset, common_context)?;
+        #[cfg(feature = "verif")]
+        crate::verif::emit(format!(
+            "\"ev\":\"seg1\",\"t\":\"{}\",\"org\":{},\"counter\":{},\"start\":{},\"end\":{},\"avr8l\":{}",
+            segment.t,
+            segment.address,
+            offset,
+            current_offset,
+            current_end_offset,
+            device.is_avr8l()
+        ));
 
         // a segment that cannot fit is refused here, before any image is built for it
         let capacity = match segment.t {
@@ -99,6 +109,8 @@ fn pass_1_internal(
     let mut cur_address = current_offset;
 
     for (line, item) in &segment.items {
+        #[cfg(feature = "verif")]
+        let address_before = cur_address;
         match item {
             Item::Label(name) => {
                 if let Some(_) = common_context.set_label(name.clone(), (segment.t, cur_address)) {
@@ -173,6 +185,21 @@ fn pass_1_internal(
             },
             Item::Pragma(_) => {}
         }
+        #[cfg(feature = "verif")]
+        crate::verif::emit(format!(
+            "\"ev\":\"item1\",\"t\":\"{}\",\"line\":{},\"kind\":{},\"addr\":{},\"size\":{}",
+            segment.t,
+            line.line_num,
+            crate::verif::quote(&match item {
+                Item::Label(name) => format!("label {}", name),
+                Item::Instruction(op, _) => format!("instr {:?}", op).to_lowercase(),
+                Item::Data(t, items) => format!("data {:?} {} {}", t, items.len(), items.actual_len()).to_lowercase(),
+                Item::ReserveData(n) => format!("byte {}", n),
+                _ => "other".to_string(),
+            }),
+            address_before,
+            cur_address - address_before
+        ));
     }
 
     Ok((cur_address, current_offset, out_items))
